@@ -41,6 +41,19 @@ Definition custom_table (v : env) : table :=
     (CTCP_PING, handle_ping); (CTCP_PONG, handle_pong); (CTCP_VERSION, handle_version v);
     (CTCP_TIME, handle_time v); (CTCP_FINGER, handle_finger v) ].
 
+(* the application handler of sessions 3, 4, 5 and u: rewrites source, target and text of the
+   event it was given and appends a parameter; writes nothing *)
+Definition drv_mutator : ev_handler := fun e =>
+  (mk_event (option_map (fun _ => bs "mallory") (ev_source e)) (ev_command e)
+     (match ev_params e with
+      | [] => [bs "extra"]
+      | [_] => [bs "#elsewhere"; bs "extra"]
+      | _ :: _ :: r => bs "#elsewhere" :: ([1] ++ bs "PING hijacked" ++ [1]) :: r ++ [bs "extra"]
+      end), []).
+
+Definition has_mutators (variant : str) : bool :=
+  one_byte 51 variant || one_byte 52 variant || one_byte 53 variant.
+
 Definition table_of_variant (variant : str) : table :=
   if one_byte 49 variant then default_table (drv_env (bs "verif 1.0"))
   else if one_byte 50 variant then custom_table (drv_env [])
@@ -100,8 +113,11 @@ Definition op_of_arg (a : str) : table_op :=
   | _ => OpClear []
   end.
 
+(* "<n>" or "<n>m" (m: the session with application handlers that rewrite their event) *)
 Definition digit_of (s : str) : nat :=
-  match s with [d] => N.to_nat (d - 48) | _ => 0%nat end.
+  match s with d :: _ => N.to_nat (d - 48) | _ => 0%nat end.
+
+Definition marked_m (s : str) : bool := match s with [_; m] => m =? 109 | _ => false end.
 
 Definition show_table_case (args : list str) : str :=
   match args with
@@ -109,7 +125,9 @@ Definition show_table_case (args : list str) : str :=
       let k := digit_of n in
       let v := drv_env [] in
       let t := apply_ops v (default_table v) (List.map op_of_arg (firstn k rest)) in
-      hexlist (sort_strs (List.map fst t)) ++ semi ++ show_outs (ctcp_stage t (ev_of_args (skipn k rest)))
+      hexlist (sort_strs (List.map fst t)) ++ semi ++
+      show_outs (if marked_m n then run_handlers [drv_mutator; drv_mutator] t (ev_of_args (skipn k rest))
+                 else ctcp_stage t (ev_of_args (skipn k rest)))
   | _ => bs "?args"
   end.
 
@@ -122,7 +140,10 @@ Definition run_C14 (suite : str) (args : list str) : option str :=
           end)
   else if streqb suite (bs "ctcp.replies") then
     Some (match args with
-          | variant :: rest => show_outs (ctcp_stage (table_of_variant variant) (ev_of_args rest))
+          | variant :: rest =>
+              show_outs (if has_mutators variant
+                         then run_handlers [drv_mutator] (table_of_variant variant) (ev_of_args rest)
+                         else ctcp_stage (table_of_variant variant) (ev_of_args rest))
           | _ => bs "?args"
           end)
   else if streqb suite (bs "ctcp.parsecmd") then
